@@ -648,7 +648,13 @@ impl SearchIndex {
         // Vacuum to remove completely
         self.index.vacuum();
 
-        self.statistics.count.remove(*folder_id, doc_info);
+        // Only update the counters when a document was removed
+        // otherwise removing a secret that is not in the index
+        // (eg: a delete event replayed by a merge) would make
+        // the folder count drift
+        if key.is_some() {
+            self.statistics.count.remove(*folder_id, doc_info);
+        }
     }
 
     /// Remove all the documents for a given vault identifier from the index.
